@@ -21,13 +21,19 @@ class ErrT:          # Err e   (Rust-level error of a Result-returning function)
 
 
 class MonT:          # a monadic Gallina expression in tail position
-    def __init__(self, m):
-        self.m = m
+    def __init__(self, m, h=False):
+        self.m, self.h = m, h
 
 
 class Bind:          # let* v := m in rest      (m: monadic Gallina expression, a string)
-    def __init__(self, v, m, rest):
+    def __init__(self, v, m, rest, h=False):
         self.v, self.m, self.rest = v, m, rest
+        self.h = h       # m is a computation of the state monad (hres) that reads the current state `s`
+
+
+class SetState:      # the replica state is replaced: let s := e in rest   (state monad only)
+    def __init__(self, e, rest):
+        self.e, self.rest = e, rest
 
 
 class BindT:         # v := sub ; rest          (sub: Term)
@@ -64,6 +70,8 @@ def effectful(t):
     if isinstance(t, Ret):
         return False
     if isinstance(t, (Fail, Bind, ErrT, MonT)):
+        return True
+    if isinstance(t, SetState):
         return True
     if isinstance(t, BindT):
         return effectful(t.sub) or effectful(t.rest)
@@ -109,6 +117,10 @@ def lpat(p):
 def render(t, mon, ind):
     """Term -> Gallina text. mon: render in the outcome monad."""
     pad = "  " * ind
+    if mon == "h":
+        return render_h(t, ind)
+    if isinstance(t, SetState) or (isinstance(t, (Bind, MonT)) and t.h):
+        raise TypeError("state-monad term outside a state function")
     if isinstance(t, Ret):
         return pad + (("Ok " + atom(t.e)) if mon else t.e)
     if isinstance(t, Fail):
@@ -153,6 +165,41 @@ def render(t, mon, ind):
         return (pad + f"let {lpat(t.spat)} := fold_left (fun {lpat(t.spat)} {lpat(t.epat)} =>\n" + render(t.body, False, ind + 2)
                 + f")\n{pad}    {atom(t.lst)} {atom(t.init)} in\n" + render(t.rest, mon, ind))
     raise TypeError(t)
+
+
+def render_h(t, ind):
+    """Term -> Gallina text in the state monad of Model/Replica.v: hres A = rstate * list effect * outcome rerr A.
+    The current state is always the variable `s` (rebound by every hbind continuation and every SetState)."""
+    pad = "  " * ind
+    if isinstance(t, Ret):
+        return pad + "hret s " + atom(t.e)
+    if isinstance(t, Fail):
+        return pad + "hpanic s " + t.kind
+    if isinstance(t, ErrT):
+        return pad + "hfail s " + atom(t.e)
+    if isinstance(t, MonT):
+        return pad + (t.m if t.h else f"hlift s {atom(t.m)}")
+    if isinstance(t, SetState):
+        return pad + f"let s := {t.e} in\n" + render_h(t.rest, ind)
+    if isinstance(t, Bind):
+        m = atom(t.m) if t.h else f"(hlift s {atom(t.m)})"
+        if isinstance(t.rest, Ret) and t.rest.e == t.v:
+            return pad + (t.m if t.h else f"hlift s {atom(t.m)}")
+        return pad + f"hbind {m} (fun s {t.v} =>\n" + render_h(t.rest, ind) + ")"
+    if isinstance(t, BindT):
+        if effectful(t.sub):
+            return (pad + "hbind (\n" + render_h(t.sub, ind + 2) + f") (fun s {lpat(t.pat)} =>\n" + render_h(t.rest, ind) + ")")
+        return (pad + f"let {lpat(t.pat)} :=\n" + render(t.sub, False, ind + 2) + " in\n" + render_h(t.rest, ind))
+    if isinstance(t, Let):
+        return pad + f"let {lpat(t.pat)} := {t.e} in\n" + render_h(t.rest, ind)
+    if isinstance(t, If):
+        return (pad + f"if {t.c}\n" + pad + "then\n" + render_h(t.a, ind + 1) + "\n" + pad + "else\n" + render_h(t.b, ind + 1))
+    if isinstance(t, Match):
+        s = pad + f"match {t.scrut} with\n"
+        for p, a in t.arms:
+            s += pad + f"| {p} =>\n" + render_h(a, ind + 2) + "\n"
+        return s + pad + "end"
+    raise TypeError(f"{type(t).__name__} is not available in a state function")
 
 
 def inline(t):
